@@ -25,7 +25,7 @@
 #include <time.h>
 
 enum { F_BACKGROUND, F_FOREGROUND, F_MULTI_SENDER, F_LONG_MESSAGE, F_FILTERED_CALLS, F_LEVEL_CHANGE, F_EMPTY_MESSAGE, F_SHUTDOWN_WITH_BACKLOG,
-       F_TRUNCATED_NOALLOC, F_TRUNCATED_DIRECT, F_EXACT_FIT, F_LEVEL_NONE, F_DEEP_BACKLOG, F_WRITER_ERRORS, F_LONG_SUBJECT };
+       F_TRUNCATED_NOALLOC, F_TRUNCATED_DIRECT, F_EXACT_FIT, F_LEVEL_NONE, F_DEEP_BACKLOG, F_WRITER_ERRORS, F_LONG_SUBJECT, F_STD_BY_NAME, F_STD_BY_FILE };
 
 /* ================================================================== recording writer */
 #define MAX_REC 4096
@@ -829,6 +829,110 @@ static void trunc_case(uint64_t case_idx) {
         mon_fence_free(buf);
         free(payload);
     }
+    /* ---- part 3: the standard logger (default formatter, background channel, the library's own file writer) writing
+     * to a file the library opens by name, or to a FILE the caller supplies; the file's content is the writer's log ---- */
+    {
+        enum { NSTD = 40 };
+        uint64_t v3 = mon_violations();
+        bool by_name = (case_idx & 1) != 0;
+        char path[512];
+        snprintf(path, sizeof(path), "%s/c14_std_%d_%llu.log", mon_run.outdir ? mon_run.outdir : ".", (int)getpid(), (unsigned long long)case_idx);
+        remove(path);
+        char *smem = NULL;
+        size_t smemlen = 0;
+        FILE *sf = by_name ? NULL : open_memstream(&smem, &smemlen);
+        int active = (int)mon_range(r, AWS_LL_ERROR, AWS_LL_TRACE);
+        struct aws_logger slog;
+        struct aws_logger_standard_options sopt = {.level = (enum aws_log_level)active, .filename = by_name ? path : NULL, .file = sf};
+        if (aws_logger_init_standard(&slog, alloc, &sopt)) {
+            mon_violation("C14:init-failed", "aws_logger_init_standard(%s) failed, error %d", by_name ? "by file name" : "caller's FILE", aws_last_error());
+        } else {
+            aws_logger_set(&slog);
+            char *spay[NSTD];
+            int slevel[NSTD], ssubj[NSTD], nexp = 0;
+            for (int i = 0; i < NSTD; ++i) {
+                unsigned lp = (unsigned)mon_below(r, 100);
+                size_t plen = lp < 10 ? 0 : lp < 80 ? (size_t)mon_below(r, 300) : lp < 97 ? (size_t)mon_below(r, 5000) : 8000 + (size_t)mon_below(r, 9000);
+                spay[i] = make_payload(2, i, plen, case_idx);
+                slevel[i] = (int)mon_range(r, AWS_LL_FATAL, AWS_LL_TRACE);
+                ssubj[i] = (int)mon_below(r, N_SUBJECTS);
+                LOG_AT(slevel[i], SUBJECTS[ssubj[i]], "%s", spay[i]);
+                nexp += slevel[i] <= active;
+            }
+            aws_logger_set(NULL);
+            aws_logger_clean_up(&slog); /* flushes the channel; closes the file only if the library opened it */
+            char *content = NULL;
+            size_t clen = 0;
+            if (by_name) {
+                FILE *rf = fopen(path, "rb");
+                if (rf) {
+                    fseek(rf, 0, SEEK_END);
+                    long sz = ftell(rf);
+                    fseek(rf, 0, SEEK_SET);
+                    content = malloc((size_t)sz + 1);
+                    clen = fread(content, 1, (size_t)sz, rf);
+                    fclose(rf);
+                }
+                remove(path);
+            } else {
+                /* the caller's FILE must still be open and usable */
+                if (fflush(sf) != 0) {
+                    mon_violation("C14:std:caller-file-closed", "the FILE handed to aws_logger_init_standard is unusable after clean-up");
+                }
+                fclose(sf);
+                content = smem;
+                clen = smemlen;
+            }
+            size_t pos3 = 0;
+            int got = 0, next = 0;
+            while (content && pos3 < clen) {
+                const char *nl = memchr(content + pos3, '\n', clen - pos3);
+                if (!nl) {
+                    mon_violation("C14:line-not-newline-terminated", "standard logger: file ends without a newline after %d lines", got);
+                    break;
+                }
+                size_t ll = (size_t)(nl - (content + pos3)) + 1;
+                const char *line = content + pos3;
+                while (next < NSTD && slevel[next] > active) {
+                    ++next;
+                }
+                if (next >= NSTD) {
+                    mon_violation("C14:duplicate-line", "standard logger: more lines in the file than calls at or below the level (%d)", nexp);
+                    break;
+                }
+                if (memchr(line, 0, ll)) {
+                    mon_violation("C14:line-contains-nul", "standard logger: line %d contains a NUL byte", got);
+                }
+                char want_prefix[32];
+                int wl = snprintf(want_prefix, sizeof(want_prefix), "[%s] [", level_name(slevel[next]));
+                const char *sn = aws_log_subject_name(SUBJECTS[ssubj[next]]);
+                size_t snl = strlen(sn), pl = strlen(spay[next]);
+                /* ... [subject] - payload\n at the end of the line */
+                size_t tail = 1 + snl + 4 + pl + 1;
+                bool ok = ll >= (size_t)wl + tail && !memcmp(line, want_prefix, (size_t)wl) && line[ll - tail] == '[' && !memcmp(line + ll - tail + 1, sn, snl) &&
+                          !memcmp(line + ll - tail + 1 + snl, "] - ", 4) && !memcmp(line + ll - 1 - pl, spay[next], pl);
+                if (!ok) {
+                    mon_violation("C14:std:line-mismatch",
+                                  "standard logger (%s): line %d (%zu bytes) is not '[%s] [time] [tid] [%.20s...] - <message of %zu bytes>': '%.50s'...'%s'",
+                                  by_name ? "file by name" : "caller's FILE", got, ll, level_name(slevel[next]), sn, pl, line,
+                                  mon_hex(line + (ll > 16 ? ll - 16 : 0), ll > 16 ? 16 : ll, 16));
+                }
+                ++next;
+                ++got;
+                pos3 += ll;
+            }
+            if (got != nexp && mon_violations() == v3) {
+                mon_violation(got < nexp ? "C14:lost-line" : "C14:duplicate-line", "standard logger (%s): %d calls at or below level %s, %d lines in the file (%zu bytes)",
+                              by_name ? "file by name" : "caller's FILE", nexp, level_name(active), got, clen);
+            }
+            mon_count("standard_logger_lines_checked", (uint64_t)got);
+            mon_flag(by_name ? F_STD_BY_NAME : F_STD_BY_FILE);
+            free(content);
+            for (int i = 0; i < NSTD; ++i) {
+                free(spay[i]);
+            }
+        }
+    }
     struct mon_alloc_stats st1;
     mon_guard_stats(&st1);
     MON_CHECK(st1.live_blocks == st0.live_blocks, "C14:leak", "allocator imbalance after the truncation sweep: %lld blocks", (long long)(st1.live_blocks - st0.live_blocks));
@@ -843,7 +947,7 @@ int main(int argc, char **argv) {
     static const char *names[] = {"background_channel", "foreground_channel", "several_senders", "message_over_8000_bytes", "filtered_calls", "level_changed_at_barrier",
                                   "empty_message", "clean_up_with_lines_still_queued", "noalloc_line_truncated", "direct_line_truncated", "line_fills_buffer_exactly",
                                   "level_none", "clean_up_with_more_than_64_lines_queued", "writer_reported_errors",
-                                  "subject_name_of_79_to_300_characters"};
+                                  "subject_name_of_79_to_300_characters", "standard_logger_file_opened_by_name", "standard_logger_callers_FILE"};
     for (int i = 0; i < (int)(sizeof(names) / sizeof(names[0])); ++i) {
         mon_flag_name(i, names[i]);
     }
